@@ -20,12 +20,13 @@ def _asm(pre, lines, opts, variant='plain'):
     return o, core.get('a.p')
 
 
-def run_ok(pre, items, opts, org, sigf, unit=1):
+def run_ok(pre, items, opts, org, sigf, unit=1, fixed=0):
     """items expected to assemble. Returns list of (item, R)."""
     out = []
     lines = []
     for k, it in enumerate(items):
-        lines.append('\t%s' % org(k * SLOT))
+        if not fixed:
+            lines.append('\t%s' % org(k * SLOT))
         lines.append(it['line'])
     o, p = _asm(pre, lines, opts)
     ck = core.crashkind(o)
@@ -38,11 +39,22 @@ def run_ok(pre, items, opts, org, sigf, unit=1):
             m = re.search(r'(error|fatal)[^:]*: *(.*)', msg)
             return [(it, core.R(False, 'rejected', 'rejected/%s' % sigf(it), 'valid statement rejected (%s): %s  [setup: %s]' % (m.group(2)[:60] if m else 'rc=%s' % o.rc, it['line'].strip(), '; '.join(l.strip() for l in pre[1:]))))]
         h = len(items) // 2
-        return run_ok(pre, items[:h], opts, org, sigf, unit) + run_ok(pre, items[h:], opts, org, sigf, unit)
+        return run_ok(pre, items[:h], opts, org, sigf, unit, fixed) + run_ok(pre, items[h:], opts, org, sigf, unit, fixed)
     recs = {}
     for r in pfile.data_records(pfile.read(p)):
         recs.setdefault(r.start, b'')
         recs[r.start] += r.data
+    if fixed:
+        # every item emits exactly `fixed` bytes, laid down back to back (used where ORG arguments would be
+        # re-interpreted by the setup under test, e.g. RADIX)
+        allb = b''.join(recs[a] for a in sorted(recs))
+        if len(allb) != fixed * len(items):
+            if len(items) == 1:
+                it = items[0]
+                return [(it, core.R(False, 'value', 'value/%s' % sigf(it), '%s  emits %d bytes (%s), model %s' % (it['line'].strip(), len(allb), allb.hex(), it['want'])))]
+            h = len(items) // 2
+            return run_ok(pre, items[:h], opts, org, sigf, unit, fixed) + run_ok(pre, items[h:], opts, org, sigf, unit, fixed)
+        recs = {k * SLOT // unit: allb[k * fixed:(k + 1) * fixed] for k in range(len(items))}
     for k, it in enumerate(items):
         got = recs.get(k * SLOT // unit)
         gh = got.hex() if got is not None else None
@@ -82,12 +94,13 @@ def run_err(pre, items, opts, sigf):
 
 
 def evaluate_batch(case, org, sigf, unit=1):
+    fixed = case.get('fixed', 0)
     """case = {'k':'batch', 'pre':[...], 'opts':[...], 'items':[...]}  or a single item with its own pre/opts ('k':'one')"""
     if case['k'] == 'one':
         it = case
         if it['want'] == 'ERR':
             return run_err(it['pre'], [it], it.get('opts', []), sigf)[0][1]
-        return run_ok(it['pre'], [it], it.get('opts', []), org, sigf, unit)[0][1]
+        return run_ok(it['pre'], [it], it.get('opts', []), org, sigf, unit, fixed)[0][1]
     pre, opts = case['pre'], case.get('opts', [])
     items = []
     for it in case['items']:
@@ -95,18 +108,23 @@ def evaluate_batch(case, org, sigf, unit=1):
         it['k'] = 'one'
         it['pre'] = pre
         it['opts'] = opts
+        if fixed:
+            it['fixed'] = fixed
         items.append(it)
     ok = [it for it in items if it['want'] != 'ERR']
     er = [it for it in items if it['want'] == 'ERR']
     res = []
     if ok:
-        res += run_ok(pre, ok, opts, org, sigf, unit)
+        res += run_ok(pre, ok, opts, org, sigf, unit, fixed)
     if er:
         res += run_err(pre, er, opts, sigf)
     return res
 
 
-def batches(pre, opts, items, size=300):
+def batches(pre, opts, items, size=300, fixed=0):
     items = list(items)
     for i in range(0, len(items), size):
-        yield {'k': 'batch', 'pre': pre, 'opts': opts, 'items': items[i:i + size]}
+        b = {'k': 'batch', 'pre': pre, 'opts': opts, 'items': items[i:i + size]}
+        if fixed:
+            b['fixed'] = fixed
+        yield b
